@@ -321,7 +321,7 @@ func c09(r *Run) {
 				ss := &Search{Fn: fn, Stop: func(i ssa.Instruction) bool { return isCall(i, ro.onDisconnectM) }, CutEdge: cutOn(byUser)}
 				wit := ss.Find([]Start{Entry(fn)}, isIns(site), false)
 				r.Visited += ss.Visited
-				r.obW("C09.R5:task-ensures-disconnect-before-callbacks:"+siteKey(w, site), "when the handler task (or its panic path) runs the close callbacks of a connection the peer closed, it has called onDisconnect() first: the hang-up goroutine marks the connection closed before it delivers OnDisconnect, so a handler returning in between would otherwise run the close callbacks first and OnDisconnect would start after them", fn, site, wit, "onDisconnect() on every non-user-close path to the callbacks")
+				r.obW("C09.R5:task-ensures-disconnect-before-callbacks:"+w.FnName(fn), "when the handler task (or its panic path) runs the close callbacks of a connection the peer closed, it has called onDisconnect() first: the hang-up goroutine marks the connection closed before it delivers OnDisconnect, so a handler returning in between would otherwise run the close callbacks first and OnDisconnect would start after them", fn, site, wit, "onDisconnect() on every non-user-close path to the callbacks")
 			}
 		}
 	}
